@@ -237,7 +237,16 @@ def _worker_main():
 
 def run_jobs(jobs: Sequence[Tuple[str, Any]], chunk: int = 120, procs: int = 8, timeout: int = 900):
     """Run jobs in worker subprocesses (fresh interpreter per chunk). Returns (class table, results)."""
-    parts = [list(jobs[k:k + chunk]) for k in range(0, len(jobs), chunk)] or [[]]
+    # chunks bounded both in number of jobs and in total number of operations (long loop histories get small chunks)
+    parts: List[list] = [[]]
+    weight = 0
+    for j in jobs:
+        w = len(j[1]) if j[0] == "hist" else 40
+        if parts[-1] and (len(parts[-1]) >= chunk or weight + w > 2400):
+            parts.append([])
+            weight = 0
+        parts[-1].append(j)
+        weight += w
 
     def one(part):
         r = subprocess.run([core.PY, "-W", "ignore", "-m", "harness.c13", "--worker"], input=json.dumps({"jobs": part}),
